@@ -50,8 +50,10 @@ func genDoc(r *Rng, maxLen int) []byte {
 		doc = append(doc, corpus[r.Intn(len(corpus))].Data...)
 	case x < 70:
 		doc = compose(r, r.Range(1, 6))
-	case x < 82:
+	case x < 78:
 		doc = classLines(r)
+	case x < 86:
+		doc = soup(r)
 	case x < 92:
 		// concatenation of 2-4 documents, with or without blank lines
 		n := r.Range(2, 4)
@@ -510,6 +512,63 @@ func classLines(r *Rng) []byte {
 		if i < nl-1 || r.Chance(0.7) {
 			sb.WriteByte('\n')
 		}
+	}
+	return []byte(sb.String())
+}
+
+// ---- small-alphabet soups (swarm style) --------------------------------------
+//
+// Each document is a random string over a SMALL random alphabet (2-6 tokens
+// drawn from the pool of syntactically significant tokens).  Leaving most
+// features out of each document concentrates the probability mass on the
+// intricate interactions of the few that are in (emphasis delimiters only;
+// brackets, backticks and newlines only; ...), which a soup over the whole
+// pool practically never produces.  One document in five is instead built
+// around LONG RUNS of one token whose length sits at a round number.
+
+var soupPool = []string{"*", "_", "`", "[", "]", "(", ")", "!", "<", ">", "\\", "\n", "\n", "\n\n", " ", " ", "  ", "a", "b", "&", "#", ";", ":", "\"", "'", "-", "+", "1", ".", "=", "~", "\t", "|", "/", "x@y.z", "http://a", "&amp;", "&#", "]:", "](", "][", " \n", "\r\n", "\x00", "\u00e9", "**", "__", "``", "> ", "- ", "<a", "/>", "-->", "<!--", "]]>", "?>"}
+
+var runLengths = []int{15, 16, 17, 31, 32, 33, 63, 64, 65, 79, 80, 81, 99, 100, 101, 127, 128, 129, 255, 256, 257, 999, 1000, 1001}
+
+func soup(r *Rng) []byte {
+	var sb strings.Builder
+	if r.Chance(0.2) {
+		tok := r.Pick([]string{"`", "*", "_", "~", "[", "]", "(", ")", "<", ">", "#", "=", "-", "+", "\\", "&", "!", " ", "\t", "a", "1", ">", "> ", "- ", "\u00e9"})
+		n := runLengths[r.Intn(len(runLengths))]
+		sb.WriteString(r.Pick([]string{"", "", "x ", "> ", "- ", "[a]: "}))
+		sb.WriteString(strings.Repeat(tok, n))
+		switch r.Intn(5) {
+		case 0:
+			sb.WriteString(" y " + strings.Repeat(tok, n))
+		case 1:
+			sb.WriteString(" y " + strings.Repeat(tok, n-1))
+		case 2:
+			sb.WriteString("\n" + strings.Repeat(tok, n+1))
+		case 3:
+			sb.WriteString(" y")
+		}
+		if r.Chance(0.7) {
+			sb.WriteByte('\n')
+		}
+		return []byte(sb.String())
+	}
+	k := r.Range(2, 6)
+	alpha := make([]string, k)
+	for i := range alpha {
+		alpha[i] = r.Pick(soupPool)
+	}
+	if r.Chance(0.5) {
+		alpha = append(alpha, "a", " ")
+	}
+	for n := r.Range(4, 40); n > 0; n-- {
+		sb.WriteString(r.Pick(alpha))
+	}
+	if r.Chance(0.6) {
+		sb.WriteByte('\n')
+	}
+	if r.Chance(0.15) {
+		// give reference-style constructs something to resolve against
+		sb.WriteString("\n[a]: /u\n[b]: /v 't'\n")
 	}
 	return []byte(sb.String())
 }
